@@ -245,6 +245,12 @@ def check_boot(V: Verdicts, prop, plan, run: Run, li: int, h: dict):
     got = run.boots[li]["state"] if not boot.get("fallback") else None
     raised = boot["result"] == "raised"
     want_step = step if step is not None else (max(C) if C else None)
+    has_cfg = plan["world"]["problem"].get("cfg", True) or plan["world"]["problem"]["kind"] != "tab"
+    if route == "restore" and model["config"] == "absent" and has_cfg and C and prop == "C11":
+        # solver and problem are reconstructible and a save had completed before the kill, yet the
+        # directory cannot be restored because its configuration file is not there
+        V.bad(f"{prop}:completed_checkpoint_without_config", f"lifetime {li}: steps {C} are completed but config.yaml is missing: restore() gave {boot['result']}/{boot['exc']}; listing={h['pre_listing']}")
+        return
     if route == "restore" and model["config"] == "absent":
         if not raised or boot["exc"] != "FileNotFoundError":
             V.bad(f"{prop}:no_config_not_FileNotFoundError", f"lifetime {li}: restore() of a directory without config.yaml gave {boot['result']}/{boot['exc']}")
